@@ -347,7 +347,73 @@ def check_clauses(ctx, nobjs, dirs, ref, st, rng, exact, tag):
     acts = [a for a in ACTIONS if (nobjs >= 2 or not a.startswith("hv"))]
     rng.shuffle(acts)
     check_history(ctx, nobjs, dirs, ref, st, acts[:rng.randrange(1, len(acts) + 1)], tag)
+    check_reuse(ctx, nobjs, dirs, ref, st, rng, tag)
     check_spacing(ctx, nobjs, dirs, st, rng, tag)
+
+
+def deep_state(sols):
+    return [(id(s), list(s.objectives), list(s.constraints), list(s.variables), s.constraint_violation, s.feasible, s.evaluated) for s in sols]
+
+
+def check_reuse(ctx, nobjs, dirs, ref, st, rng, tag):
+    """the SAME indicator objects and the SAME Solution objects used repeatedly: same set twice, another set in between,
+    directions re-declared in place on the same Problem; values must equal those of fresh objects, solutions must stay untouched"""
+    from platypus import EpsilonIndicator, GenerationalDistance, InvertedGenerationalDistance, Spacing, Direction
+    if ref_bounds(nobjs, ref) is None:
+        return
+    rp = {"kind": "reuse", "case": to_json(nobjs, dirs, ref, st)}
+
+    def viol(key, what):
+        ctx.violation(key, "%s %s; %r" % (tag, what, show(nobjs, dirs, ref, st)), rp)
+    try:
+        p, robjs, sobjs = build(nobjs, dirs, ref, st)
+        everyone = list({id(s): s for s in robjs + sobjs}.values())
+        before = deep_state(everyone)
+        inds = [("gd", GenerationalDistance(robjs)), ("igd", InvertedGenerationalDistance(robjs)), ("eps", EpsilonIndicator(robjs)), ("spacing", Spacing())]
+
+        def values(objs):
+            out = []
+            for name, ind in inds:
+                try:
+                    out.append(ind.calculate(objs))
+                except ValueError:
+                    out.append("ValueError")
+            return out
+        v1 = values(sobjs)
+        if deep_state(everyone) != before:
+            viol("indicator:calculate-modifies-solutions", "calculate changed objectives/constraints/variables of its arguments: %r -> %r" % (
+                [b[1] for b in before], [b[1] for b in deep_state(everyone)]))
+            return
+        fresh = []
+        for name, _ in inds:
+            r = run_indicator(name, nobjs, dirs, ref if name != "spacing" else [], st)
+            fresh.append(r[1] if r[0] == "ok" else "ValueError")
+        if v1 != fresh:
+            viol("indicator:changes-on-re-evaluation", "[gd, igd, eps, spacing] on one shared set of objects %r, on fresh objects per indicator %r" % (v1, fresh))
+        # another set (members of the same objects) in between, then the first set again
+        idx = [i for i in range(len(st)) if rng.random() < 0.6]
+        rng.shuffle(idx)
+        values([sobjs[i] for i in idx] + robjs[:1])
+        v2 = values(sobjs)
+        if v2 != v1:
+            viol("indicator:changes-on-re-evaluation", "the same indicator objects on the same set: %r first, %r after measuring another set" % (v1, v2))
+        # directions re-declared in place on the same Problem
+        dirs2 = [rng.random() < 0.5 for _ in dirs]
+        if dirs2 == list(dirs):
+            dirs2[rng.randrange(len(dirs2))] ^= True
+        p.directions[:] = [Direction.MAXIMIZE if d else Direction.MINIMIZE for d in dirs2]
+        v3 = values(sobjs)
+        e2 = run_indicator("eps", nobjs, dirs2, ref, st)
+        want = [v1[0], v1[1], e2[1] if e2[0] == "ok" else None, v1[3]]
+        if v3 != want:
+            viol("indicator:value-depends-on-earlier-indicator-calls",
+                 "after problem.directions[:] = %r (was %r) the same indicator objects return [gd, igd, eps, spacing] = %r, fresh objects %r" % (dirs2, list(dirs), v3, want))
+        if deep_state(everyone) != before:
+            viol("indicator:calculate-modifies-solutions", "after repeated calls the solutions differ from their initial state")
+        ctx.count(4 * 4 + 5)
+        HIST["reuse"] = HIST.get("reuse", 0) + 1
+    except Exception as e:  # noqa
+        viol("indicator:raises-in-history", "repeated use raised %s: %s" % (type(e).__name__, e))
 
 
 def check_spacing(ctx, nobjs, dirs, st, rng, tag):
@@ -516,6 +582,7 @@ def check_history(ctx, nobjs, dirs, ref, st, actions, tag):
 def run(ctx):
     rng = ctx.rng
     HIST["sequences"] = 0
+    HIST["reuse"] = 0
     cases = [(n, list(d), list(r), list(s)) for n, d, r, s in FIXED]
     per = ctx.scale(14, 80)
     for nobjs in (1, 2, 3, 4, 5):
@@ -601,6 +668,7 @@ def run(ctx):
         dirs = [rng.random() < 0.5 for _ in range(nobjs)]
         check_clauses(ctx, *gen_float_case(rng, nobjs, dirs), rng, False, "[arbitrary floats, tolerance 1e-9]")
     dist["arbitrary_float_cases(oracle only, tolerance 1e-9)"] = nfl
+    ctx.coverage["re_use_sequences(same indicator and Solution objects: repeated, another set in between, directions re-declared in place; solutions untouched)"] = HIST["reuse"]
     ctx.coverage["history_sequences_checked(other indicators between construction and calculate; values must be bitwise unchanged)"] = HIST["sequences"]
     ctx.coverage["input_distribution"] = dist
     ctx.coverage["tolerance_statement"] = ("the ONLY tolerance of the framework: the final float v of GD/IGD/spacing is accepted iff |(v*n)^2 - sum t_i| (d=2), "
@@ -643,6 +711,11 @@ def replay(ctx, data):
             ctx.count(2)
             if e1[0] == "ok" and e2[0] == "ok" and e2[1] < e1[1] - (0 if rp.get("exact") else 1e-9):
                 ctx.violation(data.get("key", "eps:decreases-when-members-get-worse"), "[replay] eps %r -> %r" % (e1[1], e2[1]), rp)
+    elif rp.get("kind") == "reuse":
+        nobjs, dirs, ref, st = from_json(rp["case"])
+        ctx.sample(show(nobjs, dirs, ref, st))
+        for seed in range(8):
+            check_reuse(ctx, nobjs, dirs, ref, st, random.Random(seed), "[replay]")
     elif rp.get("kind") == "history":
         nobjs, dirs, ref, st = from_json(rp["case"])
         ctx.sample(show(nobjs, dirs, ref, st, actions=rp["actions"]))
